@@ -142,7 +142,7 @@ type c11Job struct {
 func c11(args []string) {
 	c := chk.New("C11", "fault_enumeration", args)
 	c.Build(false)
-	c.Rule("(a third of the commands carry printf-style verbs or JSON-escape look-alikes (\\u0026) in an argument, a quarter are indented multi-line strings) histories that split an execution into several runs: RunTo(prefix) then Run; complete run, delete a downstream-closed set of outputs (with or without their audit files; the first run slow so that rewritten records are shorter), re-run; run killed at enumerated hook crash points, cleanup, resume; oracle: for every output the audit tree after the history equals the tree of an uninterrupted run of the same workflow (ids and times excluded), every embedded ancestor record is identical (ids included) to the ancestor's own .audit.json on disk, and loading every audit file through the library and writing it back loses nothing (in-process round trip in a copy of the directory); directed topologies with a directory output and with a gathering task that has an ordinary and a joined in-port (repeated, map order), with two differently tagged branches zipped by one process, and with a file that is tagged, processed and tagged again. distinct_nontrivial = distinct (workflow, history) in which >= 1 task was taken from disk and >= 1 task was executed in the last run")
+	c.Rule("(a third of the commands carry printf-style verbs or JSON-escape look-alikes (\\u0026) in an argument, a quarter are indented multi-line strings) [a chain whose first step's valid output is an empty file is among the workflows] histories that split an execution into several runs: RunTo(prefix) then Run; complete run, delete a downstream-closed set of outputs (with or without their audit files; the first run slow so that rewritten records are shorter), re-run; run killed at enumerated hook crash points, cleanup, resume; oracle: for every output the audit tree after the history equals the tree of an uninterrupted run of the same workflow (ids and times excluded), every embedded ancestor record is identical (ids included) to the ancestor's own .audit.json on disk, and loading every audit file through the library and writing it back loses nothing (in-process round trip in a copy of the directory); directed topologies with a directory output and with a gathering task that has an ordinary and a joined in-port (repeated, map order), with two differently tagged branches zipped by one process, and with a file that is tagged, processed and tagged again. distinct_nontrivial = distinct (workflow, history) in which >= 1 task was taken from disk and >= 1 task was executed in the last run")
 	c.Assume("histories whose recovery does not converge (C03's known finding: kill between the renames of a multi-file task) are not judged here", "ids and absolute times of re-executed tasks are excluded from the comparison with the uninterrupted run")
 	rng := c.Rand("c11")
 	var jobs []*c11Job
@@ -203,6 +203,29 @@ func c11(args []string) {
 			}
 			jobs = append(jobs, &c11Job{kind: kind, s: s, del: del, cfg: cfg(), label: kind})
 		}
+	}
+	// a task whose (valid) output is an empty file, in the middle of the lineage: complete run, delete the last step's
+	// outputs, re-run; and RunTo the second step, then Run
+	for rep := 0; rep < c.Pick(2, 6); rep++ {
+		in, o1 := []spec.PortDecl{{Name: "in"}}, []spec.PortDecl{{Name: "out"}}
+		s := &spec.Spec{Name: "emptymid", MaxTasks: 3, Sources: map[string]string{"e0.txt": "e0\n", "e1.txt": "e1\n"}}
+		s.Procs = append(s.Procs, &spec.Proc{Name: "src", Kind: spec.KFileSource, Files: []string{"e0.txt", "e1.txt"}},
+			&spec.Proc{Name: "A", Kind: []string{spec.KCmd, spec.KGoFunc}[rep%2], Cmd: spec.BuildCmd("A", in, o1, nil, nil, map[string]string{"size": "-1"})},
+			&spec.Proc{Name: "B", Kind: spec.KCmd, Cmd: spec.BuildCmd("B", in, o1, nil, nil, nil)},
+			&spec.Proc{Name: "C", Kind: spec.KCmd, Cmd: spec.BuildCmd("C", in, o1, nil, nil, nil)})
+		s.Conns = append(s.Conns, &spec.Conn{From: "src.out", To: "A.in"}, &spec.Conn{From: "A.out", To: "B.in"}, &spec.Conn{From: "B.out", To: "C.in"})
+		exp := evalRef(s, nil)
+		if exp.Err != "" {
+			c.Broken("reference cannot evaluate the empty-output chain: " + exp.Err)
+		}
+		var del []int
+		for i, t := range exp.Tasks {
+			if t.Proc == "C" {
+				del = append(del, i)
+			}
+		}
+		jobs = append(jobs, &c11Job{kind: []string{"delete", "delete-keep-audit"}[rep%2], s: s, del: del, cfg: Cfg{Buf: 3, Procs: 2}, label: "delete the last step's outputs, re-run (an ancestor's output is an empty file)"},
+			&c11Job{kind: "runto", s: s, target: []string{"B"}, cfg: Cfg{Buf: 3, Procs: 2}, label: "RunTo B then Run (an ancestor's output is an empty file)"})
 	}
 	// directed topologies with outputs relative to the parent directory: RunTo a prefix, then Run
 	for _, k := range []string{"chain", "twoout", "diamond"} {
